@@ -141,6 +141,19 @@ CHECKS["C14"] = dict(
     note="MergeSafe end to end is an equal-size proxy; goroutine thunks end-to-end only; C-callback wrappers not covered; one known finding (dotted last path element)",
     design="5 C14")
 
+CHECKS["C06"] = dict(
+    engine="tlc-trace-validation+llgo",
+    technique="TLA+ FiniteMap (entries by equality class incl. +0/-0, NaN, interface keys; Go's range rule with need/yielded sets) with TLC trace validation of the calls logged by an llgo-compiled generic map interpreter; MapGrowth (layer B) conformance reported",
+    text="TLC-enumerated scripts (all histories up to 4-5 tokens over four 3-key universes) and seeded random histories crossing doubling and same-size growth, with mutation (insert/delete/clear) scripted inside range loops, for 6 key types x 3 value sizes (0, 8, 136 bytes); every logged result, the hmap count and every yielded entry must be a behaviour of FiniteMap. Each run must reach the growth situations (else exit 2).",
+    note="live map sizes stay below ~7k entries; a map reassigned inside a running loop is not modelled",
+    design="5 C06")
+CHECKS["C08"] = dict(
+    engine="tlc-layout+injected-test+gcc",
+    technique="TLA+ Layout (Size/Align/Offsets over type terms, six target profiles) enumerates terms; an injected test in package ssa asks the three real computations (compile-time Sizes wrapper, LLVM data layout, emitted descriptors) for 5 targets; agreement is judged, amd64 must equal the spec; gcc validates the host profile; LayoutImpl (layer B) model-checked",
+    text="11k type terms x 5 targets in quick (90k in thorough): scalars of every width, arrays incl. length 0, nested structs with padding and zero-size tails, func/closure, aliases, named types, interface/string/slice/map/chan, map slot and bucket sizes. a = b = c is demanded everywhere; llgo-compiled host programs confirm Sizeof/Offsetof constants, address differences and reflect sizes.",
+    note="32-bit profiles are fitted, only disagreement among llgo's own computations is judged there; 16 known finding keys (zero-size tail, arm/wasm 64-bit alignment) are listed",
+    design="5 C08")
+
 NOT_YET = {}
 
 props = [json.loads(l) for l in open(os.path.join(V, "properties.jsonl"))]
